@@ -107,6 +107,10 @@ class TextGen:
             self.add(it, position="field-rename", cls=cls, text=s)
             it = self.mk("enum", variants=[Variant("A", "unit", rename=s), Variant("B", "newtype", [Field(None, prim("i32"))])])
             self.add(it, position="variant-rename", cls=cls, text=s)
+            # the same name given as an expression (`rename` accepts one): not a literal the macro could escape while expanding
+            it = self.mk("enum", variants=[Variant("A", "unit", extra_attrs=[f"#[ts(rename = *&{rs_str(s)})]"]),
+                                           Variant("B", "newtype", [Field(None, prim("i32"))])])
+            self.add(it, position="variant-rename-expr", cls=cls, text=s)
             it = self.mk("enum", tag=s, variants=[Variant("A", "unit"), Variant("B", "struct", [Field("x", prim("i32"))])])
             self.add(it, position="tag", cls=cls, text=s)
             it = self.mk("enum", tag="t", content=s, variants=[Variant("A", "unit"), Variant("B", "newtype", [Field(None, prim("i32"))])])
